@@ -41,6 +41,13 @@ def expected_errors(T: Any, shelf: Any) -> List[Tuple[str, str]]:
         where = f"things[{i}]"
         if not len(t.name) >= 3:
             out.append(("Name at least 3 characters", where))
+        if isinstance(t, T.Ball) and t.tiny is not None:
+            if not len(t.tiny) <= 3:
+                out.append(("Tiny text at most 3 characters", where + ".tiny"))
+            if not len(t.tiny) <= 10:
+                out.append(("Small text at most 10 characters", where + ".tiny"))
+            if not len(t.tiny) >= 1:
+                out.append(("Wide text non-empty", where + ".tiny"))
         if isinstance(t, T.Carton):
             if not len(t.name) <= 6:
                 out.append(("Name of a carton at most 6 characters", where))
@@ -123,6 +130,8 @@ def bounded(seed: int = 0, **_: Any) -> Dict[str, Any]:
                 "empty string": shelf(T.Ball(name="", radius=1)),
                 "code at the bounds": shelf(box(code="Ab"), box(code="Abcde")),
                 "code out of the bounds": shelf(box(code="A"), box(code="Abcdef")),
+                "tiny texts": shelf(T.Ball(name="Round", radius=1, tiny="abc"), T.Ball(name="Round", radius=1, tiny=""),
+                                    T.Ball(name="Round", radius=1, tiny="abcdefghijkl")),
             }
             # ---------------------------------------------------------------- C08: verification == invariants in Python
             for label, inst in instances.items():
